@@ -1,3 +1,228 @@
-/-! # C01 — property theorems (stub: filled in when the property's model is built) -/
+import ScenicModel.Lemmas.SamplerPerm
+import ScenicModel.Gen.SamplerCfg
+
+/-!
+# C01 — scenes are drawn from exactly the program's conditional distribution
+
+Property theorems about the sampler model (`Model/Sampler.lean`, `Model/SamplerFront.lean`), instantiated on the
+configuration `Scenic.Gen.samplerCfg` that `tools/translate/sampler.py` regenerates from `distributions.py` and
+`scenarios.py` on every run; `gen_cfg_wf` is re-decided by the kernel on that data.
+
+Reading guide (all statements are for every program, every set of roots, every predicate, every `n`):
+
+* `sampleAll_once`, `every_reference_sees_the_draw` — the identity-keyed depth-first sampler draws each reachable node
+  exactly once, dependencies first, and every reference to a node sees that one value;
+* `prior_order_independent` — the resulting distribution on values does not depend on the order of the draws;
+* `drange_spec`, `drange_reject_iff_empty`, `options_uniform`, `activation_spec` — what one draw is;
+* `attempt_eq_prior_restricted`, `attempt_order_irrelevant` — one attempt = prior restricted to the active requirements;
+* `generate_closed_form`, `generate_rejection`, `generate_conditional_independent_of_n` — the rejection loop;
+* `soft_mixture` — soft requirements enforced independently with their probabilities;
+* `resample_indep` — a clone is an independent draw from the same conditional distribution;
+* `rebinding` — a requirement keeps the bindings of the moment its statement ran.
+-/
 namespace Scenic.C01
+open Scenic.Sampler Scenic.Gen Scenic.Sampler.Dist
+
+/-- side condition on generated data: the constants extracted from the source are the ones the property needs
+    (`math.ceil`/`math.floor`, strict empty test, selectors over `0 .. n-1`, activation `random() <= prob`,
+    `iterations` from 0 with give-up test `>=`) -/
+theorem gen_cfg_wf : samplerCfg.WF := by decide
+
+/-! ## each random value is drawn once per scene -/
+
+/-- `Samplable.sampleAll` on an acyclic dependency graph is exactly: one draw per node of `postorder P roots`, in that
+    order; that order lists no node twice, lists every node after its dependencies, and contains every root. -/
+theorem sampleAll_once (P : Prog) (hP : P.WF) (roots : List Nat) (hr : ∀ j ∈ roots, j < P.nodes.length) :
+    sampleAll samplerCfg P roots = seqAlong samplerCfg P (postorder P roots) []
+      ∧ (postorder P roots).Nodup
+      ∧ Closed P (postorder P roots) []
+      ∧ ∀ j ∈ roots, j ∈ postorder P roots :=
+  ⟨sampleAll_eq_seqAlong samplerCfg P hP roots hr, postorder_nodup P hP roots hr,
+   postorder_children_first P hP roots hr, postorder_roots P roots⟩
+
+/-- In every environment `sampleAll` can produce, the value of each sampled node is a possible outcome of that node's
+    `sampleGiven` on the final environment: every reference (from any number of parents) sees the same single draw. -/
+theorem every_reference_sees_the_draw (P : Prog) (hP : P.WF) (roots : List Nat)
+    (hr : ∀ j ∈ roots, j < P.nodes.length) (env : Env) (w : Rat)
+    (h : (some env, w) ∈ sampleAll samplerCfg P roots) :
+    ∀ x ∈ postorder P roots, ∀ nd, P.nodes[x]? = some nd → ∃ u, (some (env.get x), u) ∈ draw samplerCfg nd env := by
+  rw [sampleAll_eq_seqAlong samplerCfg P hP roots hr] at h
+  exact seqAlong_consistent samplerCfg P (postorder P roots) [] env w h (postorder_nodup P hP roots hr)
+    (by intro x _ hx; cases hx) (postorder_children_first P hP roots hr)
+
+/-- **The prior is well defined.**  Drawing the same nodes in any other duplicate-free order that lists dependencies
+    first (for instance by increasing node index instead of the depth-first post-order) gives every event on the sampled
+    values the same probability: each distribution expression is an independent draw given its parameters, and nothing
+    depends on the order in which `Scenario.dependencies` happens to be walked. -/
+theorem prior_order_independent (P : Prog) (hP : P.WF) (roots : List Nat) (hr : ∀ j ∈ roots, j < P.nodes.length)
+    (ys : List Nat) (hperm : (postorder P roots).Perm ys) (hcl : Closed P ys []) (q : Env → Bool) (hq : Resp q) :
+    mass (sampleAll samplerCfg P roots) (onSome q) = mass (seqAlong samplerCfg P ys []) (onSome q) := by
+  rw [sampleAll_eq_seqAlong samplerCfg P hP roots hr]
+  exact seqAlong_perm samplerCfg P q hq ys (postorder P roots) [] [] hperm (postorder_nodup P hP roots hr)
+    (by intro x _ hx; cases hx) (postorder_children_first P hP roots hr) hcl
+
+/-! ## what one draw is -/
+
+/-- `DiscreteRange(low, high)`: when some integer lies between the sampled bounds, the outcomes are exactly the integers
+    `k` with `low ≤ k ≤ high`, each listed once, all with the same weight `1 / count` -/
+theorem drange_spec (lo hi : Nat) (env : Env) (a b : Rat) (ha : env.get lo = .num a) (hb : env.get hi = .num b)
+    (hne : a.ceil ≤ b.floor) :
+    draw samplerCfg (.drange lo hi) env
+        = (intRange a.ceil b.floor).map (fun k => (some (Val.num (k : Int)), 1 / ((intRange a.ceil b.floor).length : Rat)))
+      ∧ (intRange a.ceil b.floor).Nodup
+      ∧ ∀ k : Int, k ∈ intRange a.ceil b.floor ↔ a ≤ (k : Rat) ∧ (k : Rat) ≤ b :=
+  ⟨drange_draw gen_cfg_wf lo hi env a b ha hb hne, intRange_nodup _ _, mem_intRange_bounds a b⟩
+
+/-- ... and the draw is a rejection exactly when no integer lies between the bounds -/
+theorem drange_reject_iff_empty (lo hi : Nat) (env : Env) (a b : Rat) (ha : env.get lo = .num a)
+    (hb : env.get hi = .num b) :
+    draw samplerCfg (.drange lo hi) env = Dist.pure none ↔ ¬ ∃ k : Int, a ≤ (k : Rat) ∧ (k : Rat) ≤ b :=
+  drange_reject gen_cfg_wf lo hi env a b ha hb
+
+/-- `Uniform(o_0, …, o_{n-1})` / `Options([...])`: the selector is uniform over exactly the indices `0 … n-1`, and the
+    multiplexer returns the option at the selected index -/
+theorem options_uniform (opts : List Nat) (hn : 1 ≤ opts.length) (idx : Nat) (env : Env) :
+    draw samplerCfg (.selector opts.length) env
+        = (List.range opts.length).map (fun k => (some (Val.num ((k : Nat) : Int)), 1 / (opts.length : Rat)))
+      ∧ ∀ k, k < opts.length → ∀ env' : Env, env'.get idx = .num ((k : Nat) : Int) →
+          draw samplerCfg (.mux idx opts) env' = Dist.pure (some (env'.get (opts.getD k 0))) :=
+  ⟨selector_draw gen_cfg_wf opts.length hn env, fun k hk env' h => mux_draw samplerCfg idx opts env' k hk h⟩
+
+/-- a soft requirement `require[p]` is activated with probability exactly `p`; the loop makes exactly
+    `maxIterations` attempts, counted from 0 -/
+theorem activation_spec (p : Rat) (n : Nat) :
+    samplerCfg.actProb p = p ∧ samplerCfg.attempts n = n ∧ samplerCfg.iterStart = 0 :=
+  ⟨gen_cfg_wf.actProb p, (gen_cfg_wf.attempts n).1, (gen_cfg_wf.attempts n).2⟩
+
+/-! ## one attempt -/
+
+/-- the per-attempt sub-distribution is the prior (`sampleAll`) restricted to the samples satisfying all *active*
+    requirements; an attempt is rejected exactly when sampling is rejected or an active requirement fails -/
+theorem attempt_eq_prior_restricted {σ : Type} (P : Prog) (roots : List Nat) (active : List (Env → Bool))
+    (scene : Env → σ) (q : σ → Bool) :
+    mass (attempt samplerCfg P roots active scene) (onSome q)
+        = mass (sampleAll samplerCfg P roots) (onSome fun env => active.all (fun r => r env) && q (scene env))
+      ∧ mass (attempt samplerCfg P roots active scene) isRej
+        = mass (sampleAll samplerCfg P roots) isRej
+          + mass (sampleAll samplerCfg P roots) (onSome fun env => !active.all (fun r => r env)) :=
+  ⟨attempt_accept samplerCfg P roots active scene q, attempt_reject samplerCfg P roots active scene⟩
+
+/-- whatever order the checker evaluates the active requirements in, the attempt is the same distribution -/
+theorem attempt_order_irrelevant {σ : Type} (P : Prog) (roots : List Nat) (active active' : List (Env → Bool))
+    (scene : Env → σ) (h : active.Perm active') :
+    attempt samplerCfg P roots active scene = attempt samplerCfg P roots active' scene :=
+  attempt_perm samplerCfg P roots active active' scene h
+
+/-! ## the rejection loop (for a fixed set of active requirements) -/
+
+/-- `P(scene ∈ q, iterations = j + 1) = r^j · acc(q)` for `j < n`, and `0` for `j ≥ n`, where `acc(q)` is the
+    per-attempt probability of accepting a scene in `q` and `r` the per-attempt rejection probability -/
+theorem generate_closed_form {σ : Type} (att : Dist (Option σ)) (q : σ → Bool) (n j : Nat) :
+    (j < n → mass (loop att n 0) (hit (j + 1) q) = (mass att isRej) ^ j * mass att (onSome q))
+      ∧ (n ≤ j → mass (loop att n 0) (hit (j + 1) q) = 0) := by
+  constructor
+  · intro h; have := loop_success att q n 0 j h; simpa using this
+  · intro h; have := loop_beyond att q n 0 j h; simpa using this
+
+/-- `P(no scene within n iterations) = r^n` -/
+theorem generate_rejection {σ : Type} (att : Dist (Option σ)) (n : Nat) :
+    mass (loop att n 0) isRej = (mass att isRej) ^ n :=
+  loop_reject att n 0
+
+/-- `P(scene ∈ q | success within n) = acc(q) / acc(anything)`, whatever `n ≥ 1` is -/
+theorem generate_conditional_independent_of_n {σ : Type} (att : Dist (Option σ)) (q : σ → Bool) (n : Nat)
+    (hn : 1 ≤ n) (hr : 0 ≤ mass att isRej) (hacc : mass att (onSome fun _ => true) ≠ 0) :
+    mass (loop att n 0) (sceneIs q) / mass (loop att n 0) (sceneIs fun _ => true)
+      = mass att (onSome q) / mass att (onSome fun _ => true) := by
+  rw [loop_scene_total, loop_scene_total]
+  have hg : geom (mass att isRej) n ≠ 0 := ne_of_gt (geom_pos _ hr n hn)
+  field_simp
+
+/-! ## soft requirements -/
+
+/-- `generate` = `Σ_S Π_{i∈S} p_i Π_{i∉S} (1 - p_i) · (rejection loop with the default requirements and those in S)`,
+    for every event `q` on (activation, result) -/
+theorem soft_mixture {σ : Type} (P : Prog) (roots : List Nat) (reqs : List (Rat × (Env → Bool)))
+    (defaults : List (Env → Bool)) (scene : Env → σ) (n : Nat) (q : List Bool → Option (σ × Nat) → Bool) :
+    mass (generate samplerCfg P roots reqs defaults scene n) (fun o => q o.1 o.2)
+      = sumW ((vectors reqs.length).map fun act => softWeight (reqs.map (·.1)) act *
+          mass (loop (attempt samplerCfg P roots (defaults ++ activeOf (reqs.map (·.2)) act) scene) n 0) (q act)) :=
+  generate_mixture gen_cfg_wf P roots reqs defaults scene n q
+
+/-- the two combined: exact probability that `generate` returns a scene in `q` after exactly `j + 1 ≤ n` iterations -/
+theorem generate_total_closed_form {σ : Type} (P : Prog) (roots : List Nat) (reqs : List (Rat × (Env → Bool)))
+    (defaults : List (Env → Bool)) (scene : Env → σ) (n j : Nat) (hj : j < n) (q : σ → Bool) :
+    mass (generate samplerCfg P roots reqs defaults scene n) (fun o => hit (j + 1) q o.2)
+      = sumW ((vectors reqs.length).map fun act => softWeight (reqs.map (·.1)) act *
+          ((mass (attempt samplerCfg P roots (defaults ++ activeOf (reqs.map (·.2)) act) scene) isRej) ^ j
+            * mass (attempt samplerCfg P roots (defaults ++ activeOf (reqs.map (·.2)) act) scene) (onSome q))) := by
+  rw [soft_mixture P roots reqs defaults scene n (fun _ o => hit (j + 1) q o)]
+  congr 1
+  apply List.map_congr_left
+  intro act _
+  rw [(generate_closed_form _ q n j).1 hj]
+
+/-! ## resample -/
+
+/-- `resample(x)` builds a node with the description of `x` (same class, same parameter nodes).  Drawing the original
+    and the clone yields independent values, each distributed as `sampleGiven` on the shared parameter values. -/
+theorem resample_indep (P : Prog) (i c : Nat) (nd : Node) (env : Env)
+    (hi : P.nodes[i]? = some nd) (hc : P.nodes[c]? = some nd) (hne : i ≠ c) (hdep : i ∉ nd.deps)
+    (qa qc : Val → Bool) :
+    mass (seqAlong samplerCfg P [i, c] env) (onSome fun e => qa (e.get i) && qc (e.get c))
+      = mass (draw samplerCfg nd env) (onSome qa) * mass (draw samplerCfg nd env) (onSome qc) :=
+  seqAlong_pair_indep samplerCfg P i c nd env hi hc hne hdep qa qc
+
+/-! ## requirements keep the bindings of the moment they were stated -/
+
+/-- Whatever statements follow a `require`, the requirement recorded for it is the condition resolved against the names
+    as bound *when the statement ran*, and the nodes those names denoted are still the same nodes of the final graph. -/
+theorem rebinding (before after : List Stmt) (p : Rat) (cond : NExpr) :
+    ∃ moreNodes moreReqs,
+      (run (before ++ Stmt.require p cond :: after)).reqs
+          = (run before).reqs ++ (p, cond.resolve (run before).names) :: moreReqs
+      ∧ (run (before ++ Stmt.require p cond :: after)).nodes = (run before).nodes ++ moreNodes := by
+  rw [run_append, run_cons]
+  obtain ⟨mn, mr, h1, h2⟩ := run_extends after (exec (run before) (Stmt.require p cond))
+  refine ⟨mn, mr, ?_, ?_⟩
+  · rw [h2]; simp [exec]
+  · rw [h1]; simp [exec]
+
+/-! ## the hypotheses are satisfiable: a concrete program -/
+
+/-- `x = DiscreteRange(1, 2); y = x + x` with `y` observed: `x` is referenced twice -/
+def exProg : Prog := ⟨[.const (.num 1), .const (.num 2), .drange 0 1, .op "add" [(false, 2), (false, 2)]]⟩
+
+theorem exProg_wf : exProg.WF := by
+  intro i nd h j hj
+  match i, h with
+  | 0, h => simp [exProg] at h; subst h; simp [Node.deps] at hj
+  | 1, h => simp [exProg] at h; subst h; simp [Node.deps] at hj
+  | 2, h => simp [exProg] at h; subst h; simp [Node.deps] at hj; omega
+  | 3, h => simp [exProg] at h; subst h; simp [Node.deps] at hj; omega
+  | n + 4, h => simp [exProg] at h
+
+example : exProg.WF ∧ (∀ j ∈ [3], j < exProg.nodes.length) ∧ postorder exProg [3] = [0, 1, 2, 3] :=
+  ⟨exProg_wf, by decide, by decide⟩
+
+/-- another admissible order of the same program, and an event that only looks at the values -/
+example : (postorder exProg [3]).Perm [1, 0, 2, 3] ∧ Closed exProg [1, 0, 2, 3] []
+    ∧ Resp (fun e => e.get 3 == Val.num 2) := by
+  refine ⟨by decide, by simp [Closed, exProg, Node.deps], ?_⟩
+  intro e e' h; simp only [h 3]
+
+/-- the front end on `x = DiscreteRange(1,3); require x > 1; x = DiscreteRange(5,6)`: the requirement refers to node 2,
+    the first `x`, although `x` denotes node 5 at the end -/
+example :
+    let prog := [Stmt.define "x" [.const (.num 1), .const (.num 3), .drange 0 1],
+                 Stmt.require 1 (.op "gt" [.name "x", .const (.num 1)]),
+                 Stmt.define "x" [.const (.num 5), .const (.num 6), .drange 3 4]]
+    (run prog).names.lookup "x" = some 5
+      ∧ (run prog).reqs.map (fun r => match r.2 with
+          | .op _ (.ref i :: _) => i
+          | _ => 0) = [2] := by
+  decide
+
+example : samplerCfg.actProb (1/4) = 1/4 := (activation_spec (1/4) 0).1
+
 end Scenic.C01
